@@ -115,7 +115,42 @@ let run_spec () =
           print_string (show_out r ^ "|" ^ show_slice l' ^ "\n")) ops
     end)
 
+(* `modelrun skip ptr`: the pointer model (layer B), same output format as the model *)
+let show_pstate s =
+  match p_as_slice s, p_heights s, p_towers s with
+  | POk sl, POk hs, POk tw ->
+    let ids l = String.concat "," (List.map (fun n -> string_of_int (int_of_nat n)) l) in
+    show_slice sl ^ "|" ^ string_of_int (int_of_nat s.plevel) ^ "|" ^ z_to_string s.psize ^ "|" ^
+    String.concat "," (List.map (fun (i, h) -> string_of_int (int_of_nat i) ^ ":" ^ string_of_int (int_of_nat h)) hs) ^
+    "|" ^ String.concat "/" (List.map ids (drop_trailing_empty tw))
+  | _ -> "ptr-model-stuck"
+
+let run_ptr () =
+  iter_lines (fun line ->
+    if strip line <> "" then begin
+      let (c, ops) = split_history line in
+      let cmp = cmp_of c in
+      Printf.printf "H %d\n" (List.length ops);
+      let s = ref p_empty in
+      List.iter (fun o ->
+        match parse_op o with
+        | `Batch l ->
+          let r = List.fold_left (fun acc (v, r) ->
+            match acc with
+            | Some st -> (match p_insert cmp v (random_level r) st with POk st' -> Some st' | _ -> None)
+            | None -> None) (Some p_empty) l in
+          (match r with
+           | Some st -> s := st; print_string ("ok|" ^ show_pstate st ^ "\n")
+           | None -> print_string "ptr-model-stuck\n")
+        | `Op op ->
+          (match p_step cmp !s op with
+           | POk (s', r) -> s := s'; print_string (show_out r ^ "|" ^ show_pstate s' ^ "\n")
+           | PPanic -> print_string ("panic|" ^ show_pstate !s ^ "\n")
+           | PFuel -> print_string "ptr-model-out-of-fuel\n")) ops
+    end)
+
 let () = Registry.register "skip" (fun args ->
   match args with
   | "spec" :: _ -> run_spec ()
+  | "ptr" :: _ -> run_ptr ()
   | _ -> run_model ())
